@@ -59,7 +59,9 @@ func Run(r *report.Run) int {
 				}
 				r.Violation(fmt.Sprintf("C07:%s:%s:%s", res.Shape, site, cls), res)
 			}
-			if res.RetryErr != "" && res.RetryErr != "n/a" {
+			if res.Slow {
+				r.Inconclusive("retry-missed-its-budget-on-a-slow-machine")
+			} else if res.RetryErr != "" && res.RetryErr != "n/a" {
 				r.Violation(fmt.Sprintf("C07:%s:%s:retry-blocked", res.Shape, site), res)
 			} else if res.RetryDiff != "" {
 				r.Violation(fmt.Sprintf("C07:%s:%s:retry-committed-but-wrong-state", res.Shape, site), res)
